@@ -274,3 +274,37 @@ def load_cases(ctx):
         if h not in seen:
             seen.add(h); res.append(h)
     return res
+
+def depth_cases_for(L):
+    def gen(ctx):
+        out = []
+        kinds = ["tag", "arr", "arri", "mapk", "mapv", "mapik", "mapiv"]
+        leaves = [(0x01,), (0x5F, 0x41, 0x00, 0xFF), (0x7F, 0xFF), (0x80,), (0xA0,), (0x9F, 0xFF), (0xF6,)]
+        depths = sorted({max(0, L - 1), L, L + 1, L + 2, 4 * L})
+        for k in kinds:
+            for d in depths:
+                for leaf in leaves:
+                    out.append(nest(k, d, leaf))
+        # mixed chains: alternate kinds
+        rng = ctx.rng
+        for d in depths:
+            for _ in range(6):
+                pre, post = [], []
+                for i in range(d):
+                    k = rng.choice(kinds)
+                    x = nest(k, 1, ())
+                    # split the single-level wrapper around the hole
+                    if k == "tag": pre += [0xC1]
+                    elif k == "arr": pre += [0x81]
+                    elif k == "arri": pre += [0x9F]; post = [0xFF] + post
+                    elif k == "mapk": pre += [0xA1]; post = [0x01] + post
+                    elif k == "mapv": pre += [0xA1, 0x01]
+                    elif k == "mapik": pre += [0xBF]; post = [0x01, 0xFF] + post
+                    else: pre += [0xBF, 0x01]; post = [0xFF] + post
+                out.append(pre + list(rng.choice(leaves)) + post)
+        # truncated deep inputs (error path unwinds a full stack)
+        for k in ("tag", "arri", "mapiv"):
+            out.append(nest(k, L, (0x01,))[:L + 0])
+            out.append(nest(k, L, (0x1C,)))
+        return [hx(b) for b in out]
+    return gen
